@@ -70,7 +70,7 @@ def validIPv6 (s : Bytes) : Bool :=
   nonEmpty.all hexGroup &&
   ( (nEmpty == 0 && parts.length == 8)
     || (nEmpty == 1 && parts.length ≤ 8 && parts.head? != some [] && parts.getLast? != some [])
-    || (nEmpty == 2 && parts.length ≤ 9 && nonEmpty.length ≤ 7 &&
+    || (nEmpty == 2 && 3 ≤ parts.length && parts.length ≤ 9 && nonEmpty.length ≤ 7 &&
           (parts.take 2 == [[], []] || parts.drop (parts.length - 2) == [[], []]))
     || (parts == [[], [], []]) )
 
